@@ -1,7 +1,27 @@
 (* C01, statement level -- part 4: the simulation.
-   Compiled statements of the call-free fragment (Compile/StmtFrag.v), run by the interpreter loop
-   (Compile/StmtMach.v: xsteps), do what the reference semantics (Lang/Eval.v: exec / exec_block) prescribes:
-   same output lines, same failure at the same statement, related environments afterwards. *)
+   Compiled statements of the call-free fragment (Compile/StmtFrag.v: ok_stmt), run by the interpreter loop
+   (Compile/StmtMach.v: xsteps = the `fix loop` of run_fn_gen), do what the reference semantics
+   (Lang/Eval.v: exec / exec_block) prescribes: same output lines, same failure at the same statement, related
+   environments afterwards -- for ALL programs of the fragment at ALL nesting depths.
+
+   Fragment: x = e, x op= e (+ - * / %), print, assert, expression statements, if / if-else / else-if chains,
+   while with break / continue, from-loops with a named non-colliding counter (bounds: lower any call-free
+   expression, upper a literal or a variable; step: none or a literal), over call-free expressions (ExprSim).
+
+   Relation Rst base pins env s a g (source fenv/rstate vs VM act/gstate):
+     Rg_fr / Rg_bij   lookup-based, suffix-closed relation of scopes and frames (StmtRel.v), one-to-one on cells
+     Rg_cap           no captured environment (closures are C07)
+     Rg_out           out g = rout s   (the printed lines are EQUAL)
+     Rg_base          the frames below the activation are untouched
+     Rg_un / Rg_ns    scopes bind user names only, no shadowing
+     Rg_pins          pinned VM cells (end registers L#n of active from-loops) keep their value
+     a_ops a = []     operand stack empty between statements;  |locals| <= S (a_ss a)  (special_scopes)
+   Per statement (stmt_spec) / statement list (block_spec): `post` -- normal completion reaches the end of the code
+   with related states; break / continue reach the loop's targets with the right number of block frames popped;
+   a failure is reproduced by the VM (related error, same output prefix); the scopes change only at the innermost
+   level (same_tl), the set B of bound names is tracked exactly, the VM frames below the top are untouched.
+   Main theorems: stmt_sim, block_sim, cblock_correct (code embedded as pre ++ mid ++ post), module_correct
+   (Eval.run vs Model.execute of cprogram). *)
 From MS Require Import Lang.Eval.
 From MS Require Import Vm.Model Lang.Syntax Compile.Compile Verify.Sound Compile.ExprBase Compile.ExprSim.
 From MS Require Import Compile.StmtMach Compile.StmtRel Compile.StmtFrag.
@@ -80,6 +100,12 @@ Lemma fail_post_map : forall f (P Q : Prop), (P -> Q) -> fail_post f P -> fail_p
 Proof.
   intros f P Q HPQ H. unfold fail_post in *. destruct f; try (exact (HPQ H)).
   repeat match goal with |- match ?x with _ => _ end => destruct x end; first [exact (HPQ H)|exact Logic.I].
+Qed.
+
+Lemma fail_post_inv : forall f (P : Prop), fail_post f P -> f = FType 13%N \/ P.
+Proof.
+  intros f P H. unfold fail_post in H. destruct f; try (right; exact H).
+  repeat match type of H with match ?x with _ => _ end => destruct x end; first [right; exact H|left; reflexivity].
 Qed.
 
 Lemma err_rel_s_of : forall f e, err_rel f e -> err_rel_s f e.
@@ -253,10 +279,6 @@ Proof. intros [z|[|]|t| |p b e] H; cbn in *; try contradiction; eexists; split; 
 
 Lemma arith5_arith_op : forall o, arith5 o = true -> arith_op o.
 Proof. intros o H. split; intros ->; discriminate. Qed.
-
-Lemma base_arith5 : forall o, arith5 o = true ->
-  (match binop_sym o ++ [61%N] with [x; 61%N] => [x] | _ => [] end) = binop_sym o.
-Proof. intros o H. destruct o; try discriminate; reflexivity. Qed.
 
 Lemma arith5_not_bool : forall o a b s r s', arith5 o = true -> binop_sem o a b s = EVal r s' ->
   match inj r with VBool _ => False | _ => True end.
@@ -1281,6 +1303,35 @@ Section Sim.
     | ENoVal s => SFailed (FType 3) s | EFail f s => SFailed f s | EFuel => SFuel end.
   Proof. reflexivity. Qed.
 
+  Lemma from_iter_S : forall fuel incl hi step cname collide body n e s,
+    from_iter fuel incl hi step cname collide body (S n) e s =
+    match lookup_scopes cname (locals e) with
+    | None => SFailed (FUnbound cname) s
+    | Some c =>
+      match sget s c with
+      | Some (RInt i) =>
+        if (if incl then i <=? hi else i <? hi)%Z then
+          match in_block_ fuel body e s with
+          | SOk (SigNormal | SigContinue) e s =>
+            let bump (sv : rvalue) (s : rstate) : sres_ :=
+              match sget s c, sv with
+              | Some (RInt i'), RInt d => if i32_ok (i' + d)%Z then from_iter fuel incl hi step cname collide body n e (sset s c (RInt (i' + d)%Z))
+                                          else SFailed FOverflow s
+              | _, _ => SFailed (FType 13) s end in
+            match step with
+            | None => bump (RInt 1) s
+            | Some se => match eval fuel e se s with
+                         | EVal sv s => bump sv s | ENoVal s => SFailed (FType 3) s
+                         | EFail f s => SFailed f s | EFuel => SFuel end
+            end
+          | SOk SigBreak e s => SOk SigNormal (if collide then e else undeclare e cname) s
+          | SOk g e s => SOk g (if collide then e else undeclare e cname) s
+          | r => r end
+        else SOk SigNormal (if collide then e else undeclare e cname) s
+      | _ => SFailed (FType 13) s end
+    end.
+  Proof. reflexivity. Qed.
+
   (* ---------------------------------------------------------------- assoc lists *)
   Lemma assoc_del_other : forall A k x (l : list (str * A)), x <> k -> assoc x (assoc_del k l) = assoc x l.
   Proof.
@@ -1430,6 +1481,157 @@ Section Sim.
       intros c0 Hp. exact (A2 c0 (Hpairs _ _ Hp)).
   Qed.
 
+  (* ---------------------------------------------------------------- simple loop bounds: one instruction, no register *)
+  Lemma In_mem_str : forall x l, In x l -> mem_str x l = true.
+  Proof.
+    induction l as [|y l IH]; intros H; [destruct H|]. cbn [mem_str]. destruct H as [->|H].
+    - now rewrite str_eqb_refl.
+    - rewrite IH by exact H. apply Bool.orb_true_r.
+  Qed.
+
+  Lemma simple_eval : forall B b pins env s g fuel, simple_expr B b = true -> bound_in B env -> Rg pins env s g ->
+    exists vb, eval (S fuel) env b s = EVal vb s /\ first_order vb.
+  Proof.
+    intros B b pins env s g fuel H Hb HG. destruct b; try discriminate; cbn [simple_expr] in H.
+    - exists (RInt z). split; [reflexivity|exact Logic.I].
+    - apply Bool.andb_true_iff in H as [H1 H2]. apply src_nameb_ok in H1. apply mem_str_In in H2.
+      destruct (Rg_var_ok _ _ _ _ HG H1 (proj2 (Hb x) H2)) as (_ & c0 & v & E1 & E2 & Hfo).
+      exists v. rewrite eval_EVar, E1, E2. split; [reflexivity|exact Hfo].
+  Qed.
+
+  Lemma simple_eval_declare : forall B b x env s va fuel vb, simple_expr B b = true -> mem_str x B = false ->
+    eval (S fuel) env b s = EVal vb s ->
+    eval (S fuel) (fst (declare env s x va)) b (snd (declare env s x va)) = EVal vb (snd (declare env s x va)).
+  Proof.
+    intros B b x env s va fuel vb H HxB He. destruct b; try discriminate; cbn [simple_expr] in H.
+    - cbn in He |- *. inversion He; subst. reflexivity.
+    - apply Bool.andb_true_iff in H as [H1 H2].
+      assert (Hne : x0 <> x) by (intros ->; congruence).
+      rewrite eval_EVar in He |- *.
+      assert (El : lookup_scopes x0 (locals (fst (declare env s x va)) ++ captured (fst (declare env s x va)))
+                   = lookup_scopes x0 (locals env ++ captured env)).
+      { unfold declare, alloc. destruct (locals env) as [|sc r]; cbn [fst locals captured app lookup_scopes assoc].
+        - rewrite (str_eqb_neq x x0) by congruence. reflexivity.
+        - rewrite assoc_set_other by exact Hne. reflexivity. }
+      rewrite El. destruct (lookup_scopes x0 (locals env ++ captured env)) as [c0|]; [|discriminate].
+      assert (Eg : forall v, sget s c0 = Some v -> sget (snd (declare env s x va)) c0 = Some v).
+      { intros v Hv. unfold declare, alloc, sget in *. destruct (locals env); cbn [snd store];
+          (rewrite nth_error_app1; [exact Hv|apply nth_error_Some; congruence]). }
+      destruct (sget s c0) as [v|]; [|discriminate]. rewrite (Eg v eq_refl). inversion He; subst. reflexivity.
+  Qed.
+
+  Lemma simple_run : forall B b pins env s g a kq vb fuel, simple_expr B b = true -> Rg pins env s g ->
+    eval (S fuel) env b s = EVal vb s -> code_at code kq (pcode c b) -> a_ip a = kq -> a_ops a = [] ->
+    exists i, pcode c b = [i] /\ xrun name code a g (upd a (S kq) [inj vb]) (trc name a g i).
+  Proof.
+    intros B b pins env s g a kq vb fuel H HG He Hc Hip Hops. subst kq. destruct b; try discriminate; cbn [simple_expr] in H.
+    - cbn in He. inversion He; subst vb. cbn [pcode] in *. apply code_at_cons in Hc as [Hi _].
+      eexists. split; [reflexivity|].
+      eapply (xstep_next name code a g _ _ (a_ip a) (set_ops a [VInt z])); [reflexivity|exact Hi|apply dec_make_int; exact H|].
+      rewrite exec_make_int, Hops. reflexivity.
+    - apply Bool.andb_true_iff in H as [H1 H2]. apply src_nameb_ok in H1.
+      rewrite eval_EVar in He.
+      destruct (lookup_scopes x (locals env ++ captured env)) as [c0|] eqn:E1; [|discriminate].
+      destruct (sget s c0) as [v|] eqn:E2; [|discriminate]. inversion He; subst v.
+      cbn [pcode] in *. apply code_at_cons in Hc as [Hi _].
+      assert (Hfo : first_order vb).
+      { rewrite (Rg_cap _ _ _ HG), app_nil_r in E1.
+        destruct (Rg_var_ok _ _ _ _ HG H1 ltac:(congruence)) as (_ & c1 & v1 & F1 & F2 & F3).
+        rewrite (Rg_cap _ _ _ HG), app_nil_r in F1. congruence. }
+      set (i := mkI OP_LOAD [x]).
+      destruct (Rg_Renv _ _ a (trc name a g i) (Rg_trc _ _ _ _ _ _ HG) x c0 vb (uname_src _ H1) E1 E2 Hfo) as (c' & L1 & L2).
+      exists i. split; [reflexivity|].
+      eapply (xstep_next name code a g i _ (a_ip a) (set_ops a [inj vb])); [reflexivity|exact Hi|apply dec_load|].
+      rewrite (exec_load x a _ c' (inj vb) L1 L2), Hops. reflexivity.
+  Qed.
+
+  (* ---------------------------------------------------------------- the loop head of a from loop: load_fast counter,
+     load_fast end register, compare (the operand stack may still hold the stale result of the last `+=`) *)
+  Lemma cmp_sem : forall (incl : bool) i hi,
+    bin_op_sem (if incl then op_le else op_lt) (VInt i) (VInt hi) = OV (VBool (if incl then (i <=? hi)%Z else (i <? hi)%Z)).
+  Proof. intros [|] i hi; reflexivity. Qed.
+
+  Lemma from_cond_run : forall kc x endr (incl : bool) aL gL c0' ce i hi,
+    nth_error code kc = Some (mkI OP_LOAD_FAST [x]) -> nth_error code (S kc) = Some (mkI OP_LOAD_FAST [endr]) ->
+    nth_error code (S (S kc)) = Some (mkI OP_BIN_OP [if incl then op_le else op_lt]) ->
+    a_ip aL = kc -> find_in_function x (frames gL) = Some c0' -> cell_get gL c0' = Some (VInt i) ->
+    find_in_function endr (frames gL) = Some ce -> cell_get gL ce = Some (VInt hi) ->
+    exists g', xrun name code aL gL (upd aL (S (S (S kc))) [VBool (if incl then (i <=? hi)%Z else (i <? hi)%Z)]) g' /\
+               frames g' = frames gL /\ (forall pins env s, Rg pins env s gL -> Rg pins env s g').
+  Proof.
+    intros kc x endr incl aL gL c0' ce i hi H1 H2 H3 Hip Fx Cx Fe Ce. subst kc.
+    set (i1 := mkI OP_LOAD_FAST [x]) in *. set (i2 := mkI OP_LOAD_FAST [endr]) in *.
+    set (i3 := mkI OP_BIN_OP [if incl then op_le else op_lt]) in *.
+    set (o := a_ops aL).
+    set (g1 := trc name aL gL i1).
+    set (kc := a_ip aL) in *.
+    set (a1 := set_ip (set_ops aL (o ++ [VInt i])) (S kc)).
+    set (g2 := trc name a1 g1 i2).
+    set (a2 := set_ip (set_ops a1 ((o ++ [VInt i]) ++ [VInt hi])) (S (S kc))).
+    set (g3 := trc name a2 g2 i3).
+    exists g3. split; [|split; [reflexivity|]].
+    - eapply xrun_trans; [|eapply xrun_trans].
+      + eapply (xstep_next name code aL gL i1 _ (a_ip aL) (set_ops aL (o ++ [VInt i]))); [reflexivity|exact H1|apply dec_load_fast|].
+        exact (exec_load_fast x aL g1 c0' (VInt i) Fx Cx).
+      + eapply (xstep_next name code a1 g1 i2 _ (S kc) (set_ops a1 ((o ++ [VInt i]) ++ [VInt hi]))); [reflexivity|exact H2|apply dec_load_fast|].
+        exact (exec_load_fast endr a1 g2 ce (VInt hi) Fe Ce).
+      + eapply (xstep_next name code a2 g2 i3 _ (S (S kc)) (set_ops a2 [VBool (if incl then (i <=? hi)%Z else (i <? hi)%Z)]));
+          [reflexivity|exact H3|apply dec_bin_op|].
+        rewrite (exec_bin_op_gen _ a2 g3 o (VInt i) (VInt hi)) by (cbn [a2 set_ip set_ops a_ops]; now rewrite <- app_assoc).
+        rewrite cmp_sem. reflexivity.
+    - intros pins env s H. apply Rg_trc. apply Rg_trc. apply Rg_trc. exact H.
+  Qed.
+
+  (* the step of a from loop: make_int d; bin_op_assign += counter (leaves the new value on the operand stack) *)
+  Lemma from_step_run : forall ks x istep d a2 g2 cxv i',
+    nth_error code ks = Some istep -> decode istep = DOk (DMakeInt d) ->
+    nth_error code (S ks) = Some (mkI OP_BIN_OP_ASSIGN [[43%N; 61%N]; x]) ->
+    a_ip a2 = ks -> a_ops a2 = [] -> find_in_function x (frames g2) = Some cxv -> cell_get g2 cxv = Some (VInt i') ->
+    if i32_ok (i' + d)%Z then
+      exists g3 g3', xrun name code a2 g2 (upd a2 (S (S ks)) [VInt (i' + d)%Z]) g3 /\
+                     g3 = cell_set g3' cxv (VInt (i' + d)%Z) /\ frames g3' = frames g2 /\ cells g3' = cells g2 /\
+                     (forall pins env s, Rg pins env s g2 -> Rg pins env s g3')
+    else exists g3, xfail name code a2 g2 (E_overflow OP_BIN_OP) g3 /\ out g3 = out g2.
+  Proof.
+    intros ks x istep d a2 g2 cxv i' H1 Hd H2 Hip Hops Fx Cx. subst ks. set (ks := a_ip a2) in *.
+    set (i2 := mkI OP_BIN_OP_ASSIGN [[43%N; 61%N]; x]) in *.
+    set (g2a := trc name a2 g2 istep).
+    set (a3 := set_ip (set_ops a2 [VInt d]) (S ks)).
+    set (g2b := trc name a3 g2a i2).
+    assert (R1 : xrun name code a2 g2 a3 g2a).
+    { eapply (xstep_next name code a2 g2 istep _ ks (set_ops a2 [VInt d])); [reflexivity|exact H1|exact Hd|].
+      rewrite exec_make_int, Hops. reflexivity. }
+    assert (Hlv : lookup_var a3 g2b x = Some cxv) by (unfold lookup_var; change (frames g2b) with (frames g2); now rewrite Fx).
+    pose proof (exec_bin_op_assign [43%N; 61%N] x a3 g2b cxv (VInt d) (VInt i') Hlv eq_refl Cx) as Hx.
+    change (op_base [43%N; 61%N]) with op_plus in Hx.
+    change (bin_op_sem op_plus (VInt i') (VInt d)) with (arith OP_BIN_OP (i' + d)%Z) in Hx. unfold arith in Hx.
+    destruct (i32_ok (i' + d)%Z).
+    - exists (cell_set g2b cxv (VInt (i' + d)%Z)), g2b. split; [|split; [reflexivity|split; [reflexivity|split; [reflexivity|]]]].
+      + eapply xrun_trans; [exact R1|].
+        eapply (xstep_next name code a3 g2a i2 _ (S ks) (set_ops a3 [VInt (i' + d)%Z])); [reflexivity|exact H2|apply dec_bin_op_assign|exact Hx].
+      + intros pins env s H. apply Rg_trc. apply Rg_trc. exact H.
+    - exists g2b. split; [|reflexivity].
+      eapply xrun_fail; [exact R1|]. eapply xstep_fail; [reflexivity|exact H2|apply dec_bin_op_assign|exact Hx].
+  Qed.
+
+  (* the back edge with an arbitrary operand stack (a from loop leaves the result of `+=` there) *)
+  Lemma back_edge_gen : forall pins kj n k env2 s2 a2 g2,
+    nth_error code kj = Some (mkI OP_JMP_POP [neg_off n]) -> n <= length code -> kj < length code -> kj = k + n ->
+    a_ip a2 = kj -> Rg pins env2 s2 g2 -> 2 <= length (locals env2) ->
+    exists g3, xrun name code a2 g2 (set_ip a2 k) g3 /\ Rg pins (pop_scope env2) s2 g3 /\
+               frames g3 = tl (frames g2).
+  Proof.
+    intros pins kj n k env2 s2 a2 g2 Hi Hn Hkj Hk Hip HG Hlen.
+    set (i1 := mkI OP_JMP_POP [neg_off n]) in *.
+    destruct (popn_rel 1 env2 s2 (trc name a2 g2 i1) (Rg_trc _ _ _ _ _ _ HG) ltac:(lia)) as (g3 & Hpop & HG3 & Hf3 & _).
+    rewrite popn_1 in HG3. exists g3. split; [|split].
+    - eapply (xstep_gotopop name code a2 g2 i1 _ kj _ 1 a2); [exact Hip|exact Hi| |apply exec_jmp_pop| |exact Hpop].
+      + apply dec_jmp_pop_back. apply small_code. lia.
+      + rewrite Hip. rewrite goto_back by lia. f_equal. lia.
+    - exact HG3.
+    - rewrite Hf3. cbn [trc add_trace frames]. rewrite (skipn_S_tl _ 0). reflexivity.
+  Qed.
+
   Definition step_val (st : option expr) : Z := match st with Some (EInt z) => z | _ => 1%Z end.
 
   Lemma dec_step_code : forall st, step_ok st = true ->
@@ -1481,9 +1683,280 @@ Section Sim.
     cbn [length] in Hw, Hib, Hs1, Hs2, Hj, Hdel.
     fold lbd in Hw, Hib, Hs1, Hs2, Hj, Hdel.
     set (k1 := k + la) in *. set (k3 := S k1 + lb) in *. set (kc := S k3) in *.
-    set (kw := kc + 3). set (kb := S kw). set (ks := kb + lbd). set (kj := ks + 2). set (kd := S kj). set (fin := S kd).
-    Show.
-  Abort.
+    set (kw := S (S (S kc))). set (kb := S kw). set (ks := kb + lbd). set (kj := S (S ks)). set (kd := S kj). set (fin := S kd).
+    assert (Hw' : nth_error code kw = Some (mkI OP_WHILE_LOOP [sN (lbd + 4)])).
+    { replace kw with (S (S (S kc))) by (unfold kw; lia). replace (lbd + 4) with (lbd + 2 + 1 + 1) by lia. exact Hw. }
+    assert (Hib' : items_at kd ks kb cb0).
+    { replace kd with (S (S (S (S kc))) + (lbd + 2 + 1)) by (unfold kd, kj, ks, kb, kw; lia).
+      replace ks with (S (S (S (S kc))) + (lbd + 2 + 1) - 2 - 1) by (unfold ks, kb, kw; lia).
+      replace kb with (S (S (S (S kc)))) by (unfold kb, kw; lia). exact Hib. }
+    assert (Hs1' : nth_error code ks = Some istep).
+    { replace ks with (S (S (S (S kc))) + lbd) by (unfold ks, kb, kw; lia). exact Hs1. }
+    assert (Hs2' : nth_error code (S ks) = Some (mkI OP_BIN_OP_ASSIGN [[43%N; 61%N]; x])).
+    { replace (S ks) with (S (S (S (S (S kc))) + lbd)) by (unfold ks, kb, kw; lia). exact Hs2. }
+    assert (Hj' : nth_error code kj = Some (mkI OP_JMP_POP [neg_off (lbd + 6)])).
+    { replace kj with (S (S (S (S kc))) + (lbd + 2)) by (unfold kj, ks, kb, kw; lia).
+      replace (lbd + 6) with (1 + 3 + (lbd + 2)) by lia. exact Hj. }
+    assert (Hdel' : nth_error code kd = Some (mkI OP_DELETE_NAME_SCOPED [x; endr])).
+    { replace kd with (S (S (S (S kc))) + (lbd + 2 + 1)) by (unfold kd, kj, ks, kb, kw; lia). exact Hdel. }
+    clear Hw Hib Hs1 Hs2 Hj Hdel.
+    assert (Hfin : k + (la + 1 + lb + 1 + 3 + 1 + (lbd + 3) + 1) = fin) by (unfold fin, kd, kj, ks, kb, kw, kc, k3, k1; lia).
+    rewrite Hfin in *.
+    destruct HR as (HG & Hops & Hss).
+    rewrite exec_SFrom. cbn [after].
+    destruct fuel as [|fuel]; [exact Logic.I|].
+    (* the lower bound *)
+    pose proof (expr_run pins a0 c (S fuel) k a g env s B Hoa Hb ltac:(lia) Hca ltac:(fold la; lia) Hip Hops HG) as He.
+    fold la in He. fold k1 in He.
+    destruct (eval (S fuel) env a0 s) as [va s1|s1|f s1|]; [|contradiction| |exact Logic.I].
+    2:{ destruct He as (-> & e0 & g' & Hf & Hr & Ho). eapply post_expr_fail; eassumption. }
+    destruct He as (-> & Hfoa & g1 & R1 & HG1 & Hf1).
+    (* the upper bound: the reference semantics evaluates it before the counter exists *)
+    destruct (simple_eval B b pins env s g1 fuel Hsb Hb HG1) as (vb & Evb & Hfob). rewrite Evb.
+    destruct va as [i0|?|?| |? ? ?]; try exact Logic.I.
+    destruct vb as [hi|?|?| |? ? ?]; try exact Logic.I.
+    cbv zeta.
+    destruct (declare env s x (RInt i0)) as [env1 s1] eqn:Edec.
+    assert (Hxn : lookup_scopes x (locals env) = None).
+    { destruct (lookup_scopes x (locals env)) eqn:E; [|reflexivity].
+      assert (Hin : In x B) by (apply Hb; congruence). apply In_mem_str in Hin. congruence. }
+    assert (Eas : assign env s x (RInt i0) = (env1, s1)) by (unfold assign; rewrite Hxn; exact Edec).
+    destruct (locals env) as [|sc0 l'] eqn:El; [exact (False_ind _ (Rg_ne _ _ _ HG El))|].
+    set (cx := N.of_nat (length (store s))).
+    assert (El1 : locals env1 = assoc_set x cx sc0 :: l').
+    { unfold declare, alloc in Edec. rewrite El in Edec. inversion Edec. reflexivity. }
+    (* store_fast x *)
+    set (a1 := upd a k1 [inj (RInt i0)]) in *.
+    set (i_sx := mkI OP_STORE_FAST [x]) in *.
+    set (g1t := trc name a1 g1 i_sx).
+    assert (HG1t : Rg pins env s g1t) by (apply Rg_trc; exact HG1).
+    destruct (store_rel env s g1t x (RInt i0) env1 s1 HG1t Hx Logic.I Eas) as (g2 & Hst2 & HG2S & Hd2 & Hbx2 & HtlS).
+    assert (Hfn : find_in_function x (frames g1t) = None).
+    { pose proof (Rfr_look _ _ _ _ (Rg_fr _ _ _ HG1t) x Hx) as H. rewrite El, Hxn in H.
+      destruct (find_in_function x (frames g1t)); [contradiction|reflexivity]. }
+    unfold store_var in Hst2. rewrite Hfn in Hst2.
+    destruct (frames g1t) as [|f0 R] eqn:Ef0; [exfalso; exact (proj2 (Rfr_ne _ _ _ _ (Rg_fr _ _ _ HG1t)) Ef0)|].
+    assert (Hax0 : assoc x (vars f0) = None).
+    { cbn [find_in_function] in Hfn. destruct (assoc x (vars f0)); [discriminate|reflexivity]. }
+    set (cx' := N.of_nat (length (cells g1t))).
+    set (F1 := {| lab := lab f0; vars := assoc_set x cx' (vars f0) |}).
+    assert (Ef2 : frames g2 = F1 :: R).
+    { unfold bind_local in Hst2. rewrite Ef0 in Hst2. cbn [cell_new] in Hst2. inversion Hst2. reflexivity. }
+    set (a2 := upd a (S k1) []).
+    assert (R2 : xrun name code a g a2 g2).
+    { eapply xrun_trans; [exact R1|].
+      eapply (xstep_next name code a1 g1 i_sx _ k1 (set_ops a1 [])); [reflexivity|exact Hi1|apply dec_store_fast|].
+      apply (exec_store_fast x a1 g1t (inj (RInt i0)) g2); [reflexivity|exact Hst2]. }
+    (* the upper bound, evaluated by the VM after the counter exists: same value *)
+    pose proof (simple_eval_declare B b x env s (RInt i0) fuel (RInt hi) Hsb HxB Evb) as Eb1.
+    rewrite Edec in Eb1. cbn [fst snd] in Eb1.
+    destruct (simple_run B b pins env1 s1 g2 a2 (S k1) (RInt hi) fuel Hsb HG2S Eb1 Hcb eq_refl eq_refl) as (ib & Eib & R3).
+    assert (Hlb : lb = 1) by (unfold lb; rewrite Eib; reflexivity).
+    set (a3 := upd a2 (S (S k1)) [inj (RInt hi)]) in *.
+    set (g3 := trc name a2 g2 ib) in *.
+    (* store_fast L#n *)
+    set (i_se := mkI OP_STORE_FAST [endr]) in *.
+    set (g3t := trc name a3 g3 i_se).
+    assert (HG3t : Rg pins env1 s1 g3t) by (apply Rg_trc; apply Rg_trc; exact HG2S).
+    destruct (bind_reg_rel pins env1 s1 g3t endr (inj (RInt hi)) HG3t ltac:(intros Hu; exact (uname_not_lregn _ (S lr) Hu eq_refl)))
+      as (f3 & fs3 & Ef3 & Hb3).
+    cbv zeta in Hb3. destruct Hb3 as [Hbind3 HG4].
+    assert (E3 : f3 = F1 /\ fs3 = R).
+    { change (frames g3t) with (frames g2) in Ef3. rewrite Ef2 in Ef3. inversion Ef3. auto. }
+    destruct E3 as [-> ->].
+    set (ce := N.of_nat (length (cells g3t))) in *.
+    set (F2 := {| lab := lab F1; vars := assoc_set endr ce (vars F1) |}) in *.
+    match type of HG4 with Rg _ _ _ ?G => set (g4 := G) in * end.
+    set (a4 := upd a (S (S (S k1))) []).
+    assert (Hip4 : a_ip a4 = kc) by (cbn; unfold kc, k3; lia).
+    assert (R4 : xrun name code a g a4 g4).
+    { eapply xrun_trans; [exact R2|]. eapply xrun_trans; [exact R3|].
+      eapply (xstep_next name code a3 g3 i_se _ (S (S k1)) (set_ops a3 [])); [reflexivity| |apply dec_store_fast|].
+      - replace (S (S k1)) with k3 by (unfold k3; lia). exact Hi3.
+      - apply (exec_store_fast endr a3 g3t (inj (RInt hi)) g4); [reflexivity|exact Hbind3]. }
+    (* ---- static facts about the loop-head frames F2 :: R and scopes lL *)
+    set (pins' := (ce, VInt hi) :: pins).
+    set (lL := assoc_set x cx sc0 :: l').
+    assert (Hxe : x <> endr) by (apply uname_not_lregn; exact Hx).
+    assert (HaxF2 : assoc x (vars F2) = Some cx').
+    { unfold F2, F1. cbn [vars]. rewrite assoc_set_other by exact Hxe. apply assoc_set_same. }
+    assert (HaeF2 : assoc endr (vars F2) = Some ce) by (unfold F2; cbn [vars]; apply assoc_set_same).
+    set (vs := assoc_del endr (assoc_del x (vars F2))).
+    assert (Evs : vs = assoc_del endr (assoc_set endr ce (vars f0))).
+    { unfold vs, F2, F1. cbn [vars]. rewrite assoc_del_set_comm by exact Hxe. rewrite (assoc_del_set_absent _ x cx' (vars f0)) by exact Hax0. reflexivity. }
+    assert (Hvs1 : forall y, uname y -> y <> x -> assoc y vs = assoc y (vars F2)).
+    { intros y Hy Hne. assert (y <> endr) by (apply uname_not_lregn; exact Hy).
+      rewrite Evs, assoc_del_other, assoc_set_other by assumption.
+      unfold F2, F1. cbn [vars]. rewrite !assoc_set_other by assumption. reflexivity. }
+    assert (Hvs2 : assoc x vs = None).
+    { rewrite Evs, assoc_del_other, assoc_set_other by assumption. exact Hax0. }
+    assert (Hxs0 : assoc x sc0 = None /\ lookup_scopes x l' = None).
+    { cbn [lookup_scopes] in Hxn. destruct (assoc x sc0); [discriminate|]. auto. }
+    destruct Hxs0 as [Hxs0 Hxl'].
+    assert (Hdel0 : assoc_del x (assoc_set x cx sc0) = sc0) by (now apply assoc_del_set_absent).
+    assert (Ef4 : frames g4 = F2 :: R) by reflexivity.
+    assert (HR_tl : R = tl (frames g)).
+    { rewrite <- Hf1. change (frames g1) with (frames g1t). now rewrite Ef0. }
+    (* ---- leaving the loop: delete the counter and the end register *)
+    assert (Hexit : forall a5 g5 env5 s5, locals env5 = lL -> Rg pins' env5 s5 g5 -> frames g5 = F2 :: R ->
+              a_ip a5 = kd -> a_ops a5 = [] -> length lL <= S (a_ss a5) ->
+              exists a6 g6, xrun name code a5 g5 a6 g6 /\ a_ip a6 = fin /\ Rst pins (undeclare env5 x) s5 a6 g6 /\
+                            act_same a5 a6 /\ tl (frames g6) = R /\ locals (undeclare env5 x) = sc0 :: l').
+    { intros a5 g5 env5 s5 El5 HG5 Ef5 Hip5 Hops5 Hss5.
+      set (i_d := mkI OP_DELETE_NAME_SCOPED [x; endr]) in *.
+      set (g5t := trc name a5 g5 i_d).
+      assert (Eu : locals (undeclare env5 x) = sc0 :: l') by (unfold undeclare; rewrite El5; cbn [locals lL]; now rewrite Hdel0).
+      exists (set_ip a5 (S (a_ip a5))), (with_frames g5t ({| lab := lab F2; vars := vs |} :: R)).
+      split; [|split; [|split; [|split; [|split]]]].
+      - eapply (xstep_next name code a5 g5 i_d _ kd a5); [exact Hip5|exact Hdel'|apply dec_delete2|].
+        exact (exec_delete2 x endr a5 g5t F2 R cx' ce Ef5 Hxe HaxF2 HaeF2).
+      - cbn [set_ip a_ip]. rewrite Hip5. reflexivity.
+      - split; [|split; [exact Hops5|]].
+        + eapply (undeclare_rel pins (ce, VInt hi) env5 s5 g5t x (assoc_set x cx sc0) l' F2 R vs);
+            [apply Rg_trc; exact HG5|exact El5|exact Ef5|exact Hx|exact Hvs1|exact Hvs2|now rewrite Hdel0|exact Hxl'].
+        + rewrite Eu. cbn [set_ip a_ss length lL] in *. exact Hss5.
+      - repeat split.
+      - reflexivity.
+      - exact Eu. }
+    assert (HbL : forall envL, locals envL = lL -> bound_in (x :: B) envL).
+    { intros envL ElL y. rewrite ElL. unfold lL. rewrite <- El1, (Hbx2 y), (Hb y). cbn [In]. split; intros [H|H]; auto. }
+    assert (HlxL : lookup_scopes x lL = Some cx) by (cbn [lL lookup_scopes]; now rewrite assoc_set_same).
+    assert (Hkd : kw + (lbd + 4) = kd) by (unfold kd, kj, ks, kb; lia).
+    assert (Hkj : kj = kc + (lbd + 6)) by (unfold kj, ks, kb, kw; lia).
+    (* ---- the loop *)
+    assert (Hloop : forall n aL gL envL sL, locals envL = lL -> Rg pins' envL sL gL -> frames gL = F2 :: R ->
+              a_ip aL = kc -> length lL <= S (a_ss aL) ->
+              post pins sl bt ct fin B envL (frames g) aL gL
+                   (from_iter (S fuel) incl hi step x false body n envL sL)).
+    { induction n as [|n IH]; intros aL gL envL sL ElL HGL EfL HipL HssL; [exact Logic.I|].
+      rewrite from_iter_S. rewrite ElL, HlxL.
+      destruct (Rg_lookup envL sL gL x HGL Hx ltac:(rewrite ElL, HlxL; discriminate)) as (c0 & c0' & v & E1 & E2 & Hp & E3 & Hfo & E4).
+      rewrite ElL, HlxL in E1. inversion E1; subst c0. rewrite E3.
+      destruct v as [i|?|?| |? ? ?]; try exact Logic.I. cbn [inj] in E4.
+      assert (Fe : find_in_function endr (frames gL) = Some ce) by (rewrite EfL; cbn [find_in_function]; now rewrite HaeF2).
+      assert (Ce : cell_get gL ce = Some (VInt hi)).
+      { pose proof (Forall_inv (Rg_pins _ _ _ HGL)) as [Hc _]. exact Hc. }
+      destruct (from_cond_run kc x endr incl aL gL c0' ce i hi Hc1 Hc2 Hc3 HipL E2 E4 Fe Ce) as (gc & Rc & Efc & HRc).
+      set (bb := if incl then (i <=? hi)%Z else (i <? hi)%Z) in *.
+      set (ac := upd aL kw [VBool bb]) in *.
+      set (i_w := mkI OP_WHILE_LOOP [sN (lbd + 4)]) in *.
+      set (gct := trc name ac gc i_w).
+      assert (HGct : Rg pins' envL sL gct) by (apply Rg_trc; apply HRc; exact HGL).
+      assert (Hdecw : decode i_w = DOk (DWhile (Z.of_nat (lbd + 4)))) by (apply dec_while; apply small_code; unfold fin, kd, kj, ks, kb in *; lia).
+      pose proof (exec_while_gen (Z.of_nat (lbd + 4)) ac gct [] bb eq_refl) as Hxw.
+      assert (HneL : locals envL <> []) by (rewrite ElL; discriminate).
+      destruct bb.
+      2:{ (* the counter has passed the end: leave *)
+        set (a5 := set_ip (set_ops ac []) (kw + (lbd + 4))).
+        assert (R5 : xrun name code aL gL a5 gct).
+        { eapply xrun_trans; [exact Rc|].
+          eapply (xstep_goto name code ac gc i_w _ kw _ (set_ops ac [])); [reflexivity|exact Hw'|exact Hdecw|exact Hxw|].
+          apply goto_fwd. cbn [set_ops a_ip ac upd set_ip]. unfold fin in *. lia. }
+        destruct (Hexit a5 gct envL sL ElL HGct ltac:(change (frames gct) with (frames gc); now rewrite Efc) ltac:(cbn; exact Hkd) eq_refl HssL)
+          as (a6 & g6 & R6 & Hip6 & HR6 & Ha6 & Hf6 & El6).
+        cbn [post]. split; [split; [rewrite El6, ElL; reflexivity|rewrite El6; discriminate]|].
+        split; [eapply bound_in_eq; [exact Hb|rewrite El6, El; reflexivity]|].
+        exists a6, g6. split; [eapply xrun_trans; eassumption|]. split; [exact Hip6|]. split; [exact HR6|].
+        split; [destruct Ha6 as (A1 & A2 & A3); repeat split; assumption|]. rewrite Hf6. exact HR_tl. }
+      (* one more iteration: push <while>, run the body *)
+      set (a0' := set_ss (upd aL kb []) (S (a_ss aL))).
+      set (g0 := push_frame gct LWhile).
+      assert (R0 : xrun name code aL gL a0' g0).
+      { eapply xrun_trans; [exact Rc|].
+        eapply (xstep_push name code ac gc i_w _ kw LWhile (set_ops ac [])); [reflexivity|exact Hw'|exact Hdecw|exact Hxw]. }
+      assert (HR0 : Rst pins' (push_scope envL) sL a0' g0).
+      { split; [apply push_rel; [exact HGct|reflexivity]|]. split; [reflexivity|].
+        unfold a0'. cbn [push_scope locals length set_ss a_ss upd set_ip set_ops]. rewrite ElL. cbn [length lL] in *. apply le_n_S. exact HssL. }
+      assert (HbL0 : bound_in (x :: B) (push_scope envL)).
+      { intros y. cbn [push_scope locals lookup_scopes assoc]. exact (HbL envL ElL y). }
+      assert (Hlc0 : lc_ok true (Some 1) kd ks (push_scope envL) (kb + length cb0)).
+      { split; [discriminate|]. intros m E. inversion E; subst m. cbn [push_scope locals length]. rewrite ElL.
+        fold lbd. fold ks. cbn [lL length]. unfold fin, kd, kj in *. repeat split; lia. }
+      pose proof (Hbody pins' (S lr) true (Some 1) kd ks (S fuel) kb a0' g0 (push_scope envL) sL (x :: B) Hokb HbL0 Hib'
+                    ltac:(fold cb0; fold lbd; unfold fin, kd, kj, ks in *; lia) Hlc0 eq_refl HR0) as H.
+      fold cb0 in H. fold lbd in H. fold ks in H. unfold in_block_.
+      destruct (exec_block (S fuel) (push_scope envL) body sL) as [sig env2 s2|f s2|]; [| |exact Logic.I].
+      2:{ cbn [post] in H |- *. eapply fail_post_map; [|exact H]. intros (e0 & g' & Hf & Hr & Ho). exists e0, g'.
+          split; [eapply xrun_fail; eassumption|]. auto. }
+      cbn [post] in H. destruct H as [[Htl2 Hne2] H]. cbn [push_scope locals tl] in Htl2. rewrite ElL in Htl2.
+      assert (Hlen2 : length (locals env2) = S (length lL)).
+      { destruct (locals env2) as [|sc2 l2]; [congruence|]. cbn [tl] in Htl2. subst l2. reflexivity. }
+      assert (Epop : locals (pop_scope env2) = lL) by exact Htl2.
+      (* after the body: the step, the back edge, the next iteration *)
+      assert (Hnext : forall aB gB, xrun name code a0' g0 aB gB -> a_ip aB = ks -> Rst pins' env2 s2 aB gB ->
+                act_same a0' aB -> tl (frames gB) = F2 :: R ->
+                post pins sl bt ct fin B envL (frames g) aL gL
+                  (match sget s2 cx with
+                   | Some (RInt i') =>
+                     if i32_ok (i' + step_val step)%Z
+                     then from_iter (S fuel) incl hi step x false body n (pop_scope env2) (sset s2 cx (RInt (i' + step_val step)%Z))
+                     else SFailed FOverflow s2
+                   | _ => SFailed (FType 13) s2 end)).
+      { intros aB gB RB HipB (HGB & HopsB & HssB) HaB HfB.
+        assert (Hlx2 : lookup_scopes x (locals env2) = Some cx).
+        { destruct (locals env2) as [|sc2 l2] eqn:E2l; [discriminate|]. cbn [tl] in Htl2. subst l2.
+          apply NS_lookup_tl; [|exact HlxL]. rewrite <- E2l. exact (Rg_ns _ _ _ HGB). }
+        destruct (Rg_lookup env2 s2 gB x HGB Hx ltac:(rewrite Hlx2; discriminate)) as (c2 & c2' & v2 & G1 & G2 & Hp2 & G3 & Hfo2 & G4).
+        rewrite Hlx2 in G1. inversion G1; subst c2. rewrite G3.
+        destruct v2 as [i'|?|?| |? ? ?]; try exact Logic.I. cbn [inj] in G4.
+        pose proof (from_step_run ks x istep (step_val step) aB gB c2' i' Hs1' Hdstep Hs2' HipB HopsB G2 G4) as Hsr.
+        destruct (i32_ok (i' + step_val step)%Z).
+        - destruct Hsr as (gS & gS' & RS & EgS & EfS' & EcS' & HRgS').
+          set (sS := sset s2 cx (RInt (i' + step_val step)%Z)).
+          set (aS := upd aB (S (S ks)) [VInt (i' + step_val step)%Z]) in *.
+          assert (HGS : Rg pins' env2 sS gS).
+          { rewrite EgS. apply (update_rel env2 s2 gS' cx c2' (RInt (i' + step_val step)%Z)); [apply HRgS'; exact HGB| |exact Logic.I].
+            rewrite EfS'. exact Hp2. }
+          destruct (back_edge_gen pins' kj (lbd + 6) kc env2 sS aS gS Hj' ltac:(unfold fin, kd, kj, ks in *; lia)
+                      ltac:(unfold fin, kd in *; lia) Hkj eq_refl HGS ltac:(rewrite Hlen2; cbn [lL length]; lia))
+            as (gN & RN & HGN & EfN).
+          eapply (post_seq pins sl bt ct fin B envL (frames g) aL gL (pop_scope env2) (set_ip aS kc) gN).
+          + eapply xrun_trans; [exact R0|]. eapply xrun_trans; [exact RB|]. eapply xrun_trans; [exact RS|exact RN].
+          + split; [rewrite Epop, ElL; reflexivity|rewrite Epop; discriminate].
+          + destruct HaB as (A1 & A2 & A3). repeat split; assumption.
+          + apply IH; [exact Epop|exact HGN| |reflexivity|].
+            * rewrite EfN, EgS. change (frames (cell_set gS' c2' (VInt (i' + step_val step)%Z))) with (frames gS').
+              rewrite EfS'. exact HfB.
+            * cbn [set_ip aS upd set_ops a_ss]. rewrite Hlen2 in HssB. lia.
+        - destruct Hsr as (gS & RfS & HoS). cbn [post fail_post]. exists (E_overflow OP_BIN_OP), gS.
+          split; [eapply xrun_fail; [exact R0|]; eapply xrun_fail; [exact RB|exact RfS]|].
+          split; [left; reflexivity|]. rewrite HoS. exact (Rg_out _ _ _ HGB). }
+      assert (Hstepc : forall (e' : fenv) (s' : rstate) (bump : rvalue -> rstate -> sres_),
+                match step with
+                | None => bump (RInt 1) s'
+                | Some se => match eval (S fuel) e' se s' with
+                             | EVal sv s0 => bump sv s0 | ENoVal s0 => SFailed (FType 3) s0
+                             | EFail f s0 => SFailed f s0 | EFuel => SFuel end
+                end = bump (RInt (step_val step)) s').
+      { intros e' s' bump. destruct step as [e|]; [destruct e; try discriminate|]; reflexivity. }
+      assert (Eg0 : frames g0 = {| lab := LWhile; vars := [] |} :: F2 :: R).
+      { unfold g0, push_frame. cbn [with_frames frames]. change (frames gct) with (frames gc). now rewrite Efc, EfL. }
+      destruct sig as [| | |rv].
+      - destruct H as (_ & aB & gB & RB & HipB & HRB & HaB & HfB). rewrite Eg0 in HfB. cbn [tl] in HfB. cbv zeta. rewrite Hstepc.
+        apply (Hnext aB gB RB HipB HRB HaB HfB).
+      - (* break *)
+        destruct H as (m & aB & gB & Esl & RB & HipB & HRB & HaB & HfB). inversion Esl; subst m.
+        rewrite Eg0 in HfB. cbn [skipn] in HfB.
+        rewrite popn_1 in HRB. destruct HRB as (HGB & HopsB & HssB).
+        destruct (Hexit aB gB (pop_scope env2) s2 Epop HGB HfB HipB HopsB ltac:(rewrite <- Epop; exact HssB))
+          as (a6 & g6 & R6 & Hip6 & HR6 & Ha6 & Hf6 & El6).
+        cbn [post]. split; [split; [rewrite El6, ElL; reflexivity|rewrite El6; discriminate]|].
+        split; [eapply bound_in_eq; [exact Hb|rewrite El6, El; reflexivity]|].
+        exists a6, g6. split; [eapply xrun_trans; [exact R0|]; eapply xrun_trans; eassumption|]. split; [exact Hip6|].
+        split; [exact HR6|]. split; [|rewrite Hf6; exact HR_tl].
+        destruct HaB as (A1 & A2 & A3), Ha6 as (B1 & B2 & B3).
+        repeat split; [rewrite B1, A1|rewrite B2, A2|rewrite B3, A3]; reflexivity.
+      - (* continue *)
+        destruct H as (m & aB & gB & Esl & RB & HipB & HRB & HaB & HfB). inversion Esl; subst m.
+        rewrite Eg0 in HfB. cbn [skipn] in HfB.
+        cbn [Nat.sub] in HRB. rewrite popn_0 in HRB. cbv zeta. rewrite Hstepc.
+        apply (Hnext aB gB RB HipB HRB HaB HfB).
+      - destruct H. }
+    (* ---- put the pieces together *)
+    eapply (post_seq pins sl bt ct fin B env (frames g) a g env1 a4 g4); [exact R4|exact Hd2|repeat split|].
+    apply Hloop; [exact El1|exact HG4|exact Ef4|exact Hip4|].
+    unfold lL, a4. cbn [length upd set_ip set_ops a_ss] in *. exact Hss.
+  Qed.
 
   (* ================================================================ all statements, all nesting depths *)
   Theorem stmt_sim : forall st, stmt_spec st.
@@ -1499,7 +1972,9 @@ Section Sim.
     - intros cnd b e _ Hb He. apply ifelse_correct; now apply block_of_stmts.
     - intros cnd b n _ Hb Hn. apply ifelif_correct; [now apply block_of_stmts|exact Hn].
     - intros cnd b _ Hb. apply while_correct. now apply block_of_stmts.
-    - intros a b incl step nm col body _ _ _ _ pins lr il sl bt ct fuel k a0 g env s B Hok. discriminate.
+    - intros a b incl step nm col body _ _ _ Hbody.
+      destruct nm as [x|]; [destruct col|]; try (intros pins lr il sl bt ct fuel k a0 g env s B Hok; discriminate).
+      apply from_correct. now apply block_of_stmts.
     - apply break_correct.
     - apply continue_correct.
     - intros e _ pins lr il sl bt ct fuel k a g env s B Hok. discriminate.
@@ -1521,14 +1996,14 @@ Lemma map_CI_all : forall l, Forall is_CI (map CI l).
 Proof. induction l; cbn [map]; constructor; [exact Logic.I|assumption]. Qed.
 
 Definition ci_spec (c : nat) (st : stmt) : Prop :=
-  forall B sl, ok_stmt false B st = true -> Forall is_CI (sitems c sl st).
+  forall B lr sl, ok_stmt false B st = true -> Forall is_CI (sitems c lr sl st).
 
 Lemma bitems_CI : forall c l, Forall (ci_spec c) l ->
-  forall B sl, ok_block false B l = true -> Forall is_CI (bitems c sl l).
+  forall B lr sl, ok_block false B l = true -> Forall is_CI (bitems c lr sl l).
 Proof.
-  intros c. induction l as [|st l IH]; intros HF B sl Hok; [constructor|].
+  intros c. induction l as [|st l IH]; intros HF B lr sl Hok; [constructor|].
   cbn [ok_block] in Hok. apply Bool.andb_true_iff in Hok as [H1 H2]. cbn [bitems].
-  apply Forall_app. split; [exact (Forall_inv HF B sl H1)|exact (IH (Forall_inv_tail HF) _ sl H2)].
+  apply Forall_app. split; [exact (Forall_inv HF B lr sl H1)|exact (IH (Forall_inv_tail HF) _ lr sl H2)].
 Qed.
 
 Ltac ci_tac := repeat (first [ apply map_CI_all | apply resolve_all_CI | assumption
@@ -1537,28 +2012,30 @@ Ltac ci_tac := repeat (first [ apply map_CI_all | apply resolve_all_CI | assumpt
 Theorem sitems_CI : forall c st, ci_spec c st.
 Proof.
   intros c. apply (stmt_ind' (fun _ => True) (ci_spec c)); try (intros; exact Logic.I); unfold ci_spec.
-  - intros x e _ B sl H. cbn [sitems]. ci_tac.
-  - intros x e _ B sl H. discriminate.
-  - intros x o e _ B sl H. cbn [sitems]. ci_tac.
-  - intros e _ B sl H. cbn [sitems]. ci_tac.
-  - intros e sp _ B sl H. cbn [sitems]. ci_tac.
-  - intros e _ B sl H. cbn [sitems]. ci_tac.
-  - intros cnd b _ Hb B sl H. rewrite ok_SIf in H. apply Bool.andb_true_iff in H as [H1 H2].
-    rewrite sitems_SIf. cbv zeta. pose proof (bitems_CI c b Hb B (option_map S sl) H2). ci_tac.
-  - intros cnd b e _ Hb He B sl H. rewrite ok_SIfElse in H. rewrite !Bool.andb_true_iff in H. destruct H as [[H1 H2] H3].
+  - intros x e _ B lr sl H. cbn [sitems]. ci_tac.
+  - intros x e _ B lr sl H. discriminate.
+  - intros x o e _ B lr sl H. cbn [sitems]. ci_tac.
+  - intros e _ B lr sl H. cbn [sitems]. ci_tac.
+  - intros e sp _ B lr sl H. cbn [sitems]. ci_tac.
+  - intros e _ B lr sl H. cbn [sitems]. ci_tac.
+  - intros cnd b _ Hb B lr sl H. rewrite ok_SIf in H. apply Bool.andb_true_iff in H as [H1 H2].
+    rewrite sitems_SIf. cbv zeta. pose proof (bitems_CI c b Hb B lr (option_map S sl) H2). ci_tac.
+  - intros cnd b e _ Hb He B lr sl H. rewrite ok_SIfElse in H. rewrite !Bool.andb_true_iff in H. destruct H as [[H1 H2] H3].
     rewrite sitems_SIfElse. cbv zeta.
-    pose proof (bitems_CI c b Hb B (option_map S sl) H2). pose proof (bitems_CI c e He B (option_map S sl) H3). ci_tac.
-  - intros cnd b n _ Hb Hn B sl H. rewrite ok_SIfElif in H. rewrite !Bool.andb_true_iff in H. destruct H as [[H1 H2] H3].
+    pose proof (bitems_CI c b Hb B lr (option_map S sl) H2). pose proof (bitems_CI c e He B lr (option_map S sl) H3). ci_tac.
+  - intros cnd b n _ Hb Hn B lr sl H. rewrite ok_SIfElif in H. rewrite !Bool.andb_true_iff in H. destruct H as [[H1 H2] H3].
     rewrite sitems_SIfElif. cbv zeta.
-    pose proof (bitems_CI c b Hb B (option_map S sl) H2). pose proof (Hn B (option_map S sl) H3). ci_tac.
-  - intros cnd b _ Hb B sl H. rewrite sitems_SWhile. cbv zeta. ci_tac.
-  - intros a b incl step nm col body _ _ _ _ B sl H. discriminate.
+    pose proof (bitems_CI c b Hb B lr (option_map S sl) H2). pose proof (Hn B lr (option_map S sl) H3). ci_tac.
+  - intros cnd b _ Hb B lr sl H. rewrite sitems_SWhile. cbv zeta. ci_tac.
+  - intros a b incl step nm col body _ _ _ _ B lr sl H.
+    destruct nm as [x|]; [destruct col|]; try discriminate.
+    rewrite sitems_SFrom. cbv zeta. destruct step as [e|]; cbn [step_code]; ci_tac.
   - intros B sl H. discriminate.
   - intros B sl H. discriminate.
-  - intros e _ B sl H. discriminate.
+  - intros e _ B lr sl H. discriminate.
 Qed.
 
-Lemma bitems_all_CI : forall c l B sl, ok_block false B l = true -> Forall is_CI (bitems c sl l).
+Lemma bitems_all_CI : forall c l B lr sl, ok_block false B l = true -> Forall is_CI (bitems c lr sl l).
 Proof. intros c l. apply bitems_CI. apply Forall_forall. intros st _. apply sitems_CI. Qed.
 
 Lemma CI_strip : forall its, Forall is_CI its -> map CI (strip its) = its.
@@ -1593,18 +2070,18 @@ Theorem cblock_correct : forall l B, ok_block false B l = true ->
         Rst pins env' s' a' g' /\ act_same a a' /\ same_tl env env' /\ bound_in (after_l B l) env' /\
         tl (frames g') = tl (frames g)
   | SOk _ _ _ => False
-  | SFailed f s' => exists n e g',
-        xsteps name code n (Running a g) = Failed e g' /\ err_rel_s f e /\ out g' = rout s'
+  | SFailed f s' => fail_post f (exists n e g',
+        xsteps name code n (Running a g) = Failed e g' /\ err_rel_s f e /\ out g' = rout s')
   | SFuel => True
   end.
 Proof.
   intros l B Hok c st pins name pre post_ a g env s fuel mid code fin Hpost Hsm Hip HR Hb.
-  pose proof (bitems_all_CI c l B None Hok) as HCI.
-  assert (Emid : mid = strip (bitems c None l)) by (unfold mid; now rewrite (cblockT_ok path c l false B None st Hok)).
-  assert (Elen : length mid = length (bitems c None l)) by (rewrite Emid; now apply strip_CI_length).
-  pose proof (block_sim name code c Hsm l pins false None 0 0 fuel (length pre) a g env s B Hok Hb) as H.
+  pose proof (bitems_all_CI c l B (lreg st) None Hok) as HCI.
+  assert (Emid : mid = strip (bitems c (lreg st) None l)) by (unfold mid; now rewrite (cblockT_ok path c l false B None st Hok)).
+  assert (Elen : length mid = length (bitems c (lreg st) None l)) by (rewrite Emid; now apply strip_CI_length).
+  pose proof (block_sim name code c Hsm l pins (lreg st) false None 0 0 fuel (length pre) a g env s B Hok Hb) as H.
   rewrite <- Elen in H. fold fin in H.
-  assert (Hit : items_at code 0 0 (length pre) (bitems c None l)).
+  assert (Hit : items_at code 0 0 (length pre) (bitems c (lreg st) None l)).
   { apply items_at_strip; [exact HCI|]. rewrite <- Emid. apply code_at_embed. }
   assert (Hend : length pre + length mid < length code) by (apply embed_length; exact Hpost).
   assert (Hlc : lc_ok code false None 0 0 env fin) by (split; [discriminate|intros m E; discriminate]).
@@ -1615,7 +2092,7 @@ Proof.
     + destruct H as (m & ? & ? & E & _). discriminate.
     + destruct H as (m & ? & ? & E & _). discriminate.
     + exact H.
-  - cbn [post] in H. destruct H as (e & g' & [n R] & Hr & Ho). exists n, e, g'. auto.
+  - cbn [post] in H. eapply fail_post_map; [|exact H]. intros (e & g' & [n R] & Hr & Ho). exists n, e, g'. auto.
 Qed.
 End Top.
 
@@ -1647,7 +2124,7 @@ Proof.
 Qed.
 
 Definition ret_mod : instr := {| op := OP_RET_MOD; args := [] |}.
-Definition module_code (p : source) : list instr := strip (bitems 0 None p) ++ [ret_mod].
+Definition module_code (p : source) : list instr := strip (bitems 0 0 None p) ++ [ret_mod].
 
 Lemma cprogram_frag : forall p, ok_block false [] p = true -> cprogram path p = [(s_module_fn path, module_code p)].
 Proof.
@@ -1664,8 +2141,11 @@ Definition vm_outcome_ok (r : routcome) (o : outcome) : Prop :=
 (* C01 on the fragment: the compiled module, run by the VM model, prints exactly the lines the reference semantics
    prints and ends the same way (done with an empty call stack / the related run-time error after the same
    output prefix) *)
+(* FType 13 = a `from` loop whose counter / bound is not an integer (rejected by the type checker): no claim *)
+Definition no_claim (r : routcome) : Prop := match r with ROFail f => f = FType 13%N | _ => False end.
+
 Theorem module_correct : forall p, ok_block false [] p = true -> small (length (module_code p) + 4) ->
-  forall fuel, snd (run fuel p) <> ROFuel ->
+  forall fuel, snd (run fuel p) <> ROFuel -> no_claim (snd (run fuel p)) \/
   exists fuel', fst (fst (execute fuel' (cprogram path p) (s_module_fn path))) = fst (run fuel p) /\
                 vm_outcome_ok (snd (run fuel p)) (snd (fst (execute fuel' (cprogram path p) (s_module_fn path)))).
 Proof.
@@ -1674,7 +2154,7 @@ Proof.
   pose proof (cblock_correct [] path p [] Hok 0 {| fid := 0; lreg := 0; fbuf := [] |} [] name [] [ret_mod]
                 (act0 name [] None) (push_frame g0 (LFun name))
                 {| locals := [[]]; captured := []; cur := None |} {| store := []; rout := [] |} fuel) as H.
-  cbv zeta in H. rewrite (cblockT_ok path 0 p false [] None _ Hok) in H. cbn [fst app length Nat.add] in H.
+  cbv zeta in H. rewrite (cblockT_ok path 0 p false [] None _ Hok) in H. cbn [fst app length Nat.add lreg] in H.
   fold (module_code p) in H.
   specialize (H ltac:(discriminate) Hsm eq_refl (Rst_init name) ltac:(intros x; cbn; split; [congruence|intros []])).
   unfold run in *.
@@ -1698,10 +2178,11 @@ Proof.
       cbn [loop]. rewrite Hip. unfold module_code at 1. rewrite nth_error_app2 by lia. rewrite Nat.sub_diag.
       cbn [nth_error]. unfold Model.exec. change (decode ret_mod) with (DOk DRetMod). cbn [exec_d].
       rewrite Hops. cbn [add_trace frames with_frames drop_to_function cells out trace]. rewrite Hsp. reflexivity. }
-    destruct Hrun as [tr'' Hrun].
+    destruct Hrun as [tr'' Hrun]. right.
     exists (S (n + 1)). unfold execute. rewrite Hrun. cbn [fst snd frames out].
     split; [exact (Rg_out _ _ _ _ HG)|exact Logic.I].
-  - destruct H as (n & e & g' & Hn & Hr & Ho).
+  - apply fail_post_inv in H. destruct H as [->|H]; [left; reflexivity|right].
+    destruct H as (n & e & g' & Hn & Hr & Ho).
     exists (S (n + 0)). unfold execute, run_fn. rewrite run_fn_gen_S, Ecode.
     rewrite (xloop_failed name (module_code p) _ _ n _ _ _ _ Hn 0).
     cbn [fst snd]. split; [exact Ho|exact Hr].
